@@ -60,6 +60,7 @@ class Client:
         self.delay_of = {}
         self.written = {}
         self.outcome = {}
+        self.env_log = []       # what the environment did: (time, 0 call / 1 answer / 2 lose, id, count)
         real_write = self.tr.write
 
         def write(data):
@@ -80,11 +81,20 @@ class Client:
                 continue
             rep = [{'jsonrpc': '2.0', 'result': m['params'], 'id': m['id']} for m in items if 'id' in m]
             out = json.dumps(rep if isinstance(msg, list) else rep[0]).encode() + b'\n'
-            self.bench.loop.call_later(d, self.deliver, out)
+            self.bench.loop.call_later(d, self.deliver, out, key)
 
-    def deliver(self, data):
+    def deliver(self, data, key=None):
         if not self.tr.closing:
+            self.env_log.append((self.bench.loop.time(), 1, key, 0))
             self.proto.data_received(data)
+
+    def start(self, key, count):
+        self.env_log.append((self.bench.loop.time(), 0, key, count))
+        return self.bench.loop.create_task(self.call(key, count))
+
+    def lose(self):
+        self.env_log.append((self.bench.loop.time(), 2, 0, 0))
+        self.tr.close()
 
     async def call(self, key, count):
         TaskTimeout = self.mods['curio'].TaskTimeout
@@ -159,40 +169,79 @@ def flat_flow_row(r):
     return out + list(targets)
 
 
+def settle(c, bench, L):
+    """bring the outgoing limiter of a live session to limit L with exactly L permits in
+    circulation, through the public API only: with recalibrate_count 1, slow answers walk the
+    limit down (50, 40, 32, ... 3, 2, 1), answers taking exactly target_response_time keep it where
+    it is, and every completion above the limit retires one permit"""
+    c.s.recalibrate_count = 1
+    real_timeout = c.s.sent_request_timeout
+    c.s.sent_request_timeout = 10.0 ** 6
+    trt = c.s.target_response_time
+    start = int(c.lim.max_concurrent)
+    done = 0
+    key = 10 ** 6
+    while done < start + 5 and (int(c.lim.max_concurrent) != L or done < start - L + 1):
+        cur = int(c.lim.max_concurrent)
+        if cur < L:
+            raise RuntimeError(f'settle: limit {cur} fell below {L}')
+        delay = 64.0 * trt if cur > L else trt
+        c.delay_of[key] = delay
+        t = bench.loop.create_task(c.call(key, 1))
+        bench.advance(delay + 1.0)
+        if not t.done():
+            raise RuntimeError('settle: call did not complete')
+        key += 1
+        done += 1
+    if int(c.lim.max_concurrent) != L:
+        raise RuntimeError(f'settle: could not reach limit {L}')
+    c.s.recalibrate_count = 10 ** 6
+    c.s.sent_request_timeout = real_timeout
+    c.env_log.clear()
+    c.written.clear()
+    c.outcome.clear()
+
+
 def outcome_rows(mods):
-    """(limit L, callers n, sent_request_timeout (num den), scenario, scenario time (num den)) then
-    per caller: write time (num den, -1 1 = never written), outcome (0 result 1 error 2 TaskTimeout
-    3 cancelled), outcome time (num den).
-    scenarios: 0 silent peer; 1 the peer answers every request after the scenario time; 2 silent
-    peer and the connection is lost at the scenario time"""
+    """limit L, sent_request_timeout (num den), then what the environment did in time order:
+    #actions, (time num den, 0 call / 1 the peer's answer is delivered / 2 connection lost, id,
+    request_count)*; then per caller 0..n-1: written? write time (num den), outcome (0 result
+    1 error 2 TaskTimeout 3 cancelled; 9 none), outcome time (num den).  Times count from the start of
+    the scenario."""
     rows = []
     saved = mods['session'].time
     try:
+        # (L, callers, timeout, scenario, scenario time): 0 silent peer; 1 every request is answered
+        # `time` after it was written; 2 silent peer, connection lost at `time`; 3 like 1 but only
+        # even callers are answered
         for L, n, tmo, scen, st in ((50, 1, 2.0, 0, 0.0), (50, 3, 0.5, 0, 0.0), (2, 3, 2.0, 0, 0.0), (1, 3, 0.5, 0, 0.0),
                                     (2, 5, 2.0, 0, 0.0), (50, 2, 2.0, 1, 0.75), (2, 4, 2.0, 1, 0.25), (1, 3, 2.0, 1, 1.5),
-                                    (50, 2, 2.0, 2, 1.25), (2, 4, 2.0, 2, 0.5), (1, 2, 30.0, 2, 7.0), (3, 3, 30.0, 0, 0.0)):
+                                    (50, 2, 2.0, 2, 1.25), (2, 4, 2.0, 2, 0.5), (1, 2, 30.0, 2, 7.0), (3, 3, 30.0, 0, 0.0),
+                                    (2, 5, 2.0, 3, 0.75), (1, 4, 4.0, 3, 1.0), (3, 7, 2.0, 2, 2.5)):
             bench = lp.VBench()
             try:
-                c = Client(mods, bench, dict(sent_request_timeout=tmo, recalibrate_count=1000))
+                c = Client(mods, bench, dict(sent_request_timeout=tmo, recalibrate_count=1, target_response_time=3.0))
                 if L != int(c.lim.max_concurrent):
-                    c.lim.set_target(L)
-                    # a lowered limit takes effect as requests complete: start from a quiet limiter
-                    # by letting L dummy-free entries settle (nothing is outstanding yet)
-                tasks = []
+                    settle(c, bench, L)
+                c.s.recalibrate_count = 10 ** 6
+                t0 = bench.loop.time()
                 for k in range(n):
-                    c.delay_of[k] = st if scen == 1 else None
-                    tasks.append(bench.loop.create_task(c.call(k, 1)))
+                    c.delay_of[k] = st if scen == 1 or (scen == 3 and k % 2 == 0) else None
+                    c.start(k, 1)
                 bench.idle()
                 if scen == 2:
                     bench.advance(st)
-                    c.tr.close()
+                    c.lose()
                 bench.advance(tmo * (n + 2) + st * (n + 2) + 1)
-                row = [L, n] + lp.rat_ints(tmo) + [scen] + lp.rat_ints(st)
+                row = [L] + lp.rat_ints(tmo) + [len(c.env_log)]
+                for t, kind, key, count in sorted(c.env_log, key=lambda e: e[0]):
+                    row += lp.rat_ints(t - t0) + [kind, key, count]
+                row.append(n)
                 for k in range(n):
                     w = c.written.get(k)
-                    row += lp.rat_ints(w) if w is not None else [-1, 1]
-                    kind, t = c.outcome.get(k, (9, 0.0))
-                    row += [kind] + lp.rat_ints(t)
+                    row += ([1] + lp.rat_ints(w - t0)) if w is not None else [0, 0, 1]
+                    kind, t = c.outcome.get(k, (9, t0))
+                    row += [kind] + lp.rat_ints(t - t0)
                 rows.append(row)
             finally:
                 bench.close()
@@ -246,9 +295,10 @@ def render(f):
         '    (num den), recalibrate_count, #steps, steps (request_count, response time num den), then the\n'
         '    outgoing limit after each completion -/\n'
         f'def flowTable : List (List Int) := {lp.lean_int_rows(f["flow_rows"])}\n'
-        '/-- what callers get and when: limit, callers, sent_request_timeout (num den), scenario (0 silent\n'
-        '    peer / 1 answer after the scenario time / 2 connection lost at the scenario time), scenario\n'
-        '    time (num den); per caller: write time (num den; -1 1 = never written), outcome (0 result\n'
-        '    1 error 2 TaskTimeout 3 cancelled), outcome time (num den) -/\n'
+        '/-- what callers get and when, on a live client session whose outgoing limiter was brought to\n'
+        '    limit L first: L, sent_request_timeout (num den), #environment actions, (time num den,\n'
+        '    0 call / 1 answer delivered / 2 connection lost, id, request_count)*, #callers, per caller:\n'
+        '    written?, write time (num den), outcome (0 result 1 error 2 TaskTimeout 3 cancelled),\n'
+        '    outcome time (num den); times count from the start of the scenario -/\n'
         f'def outcomeTable : List (List Int) := {lp.lean_int_rows(f["outcome_rows"])}\n'
         'end Aiorpcx.Facts.C20\n')
